@@ -517,6 +517,11 @@ def _encode(p: Problem, rng, input_term: bool = False):
             # noise of L^dagger H_0 R stays far below the library's absolute atol = 1e-12)
             T_re = np.triu(rng.integers(-1, 2, size=(p.N, p.N)), 1)
             T_im = np.triu(rng.integers(-1, 2, size=(p.N, p.N)), 1) if cplx else np.zeros((p.N, p.N), int)
+            if (not p.exact) and rng.random() < 0.15:
+                # H_0 given in a basis in which it is lower triangular: R = 1 + T with T strictly LOWER triangular
+                Q0 = np.eye(p.N, dtype=complex)
+                T_re, T_im = T_re.T.copy(), T_im.T.copy()
+                p.notes["lower_triangular_h0"] = True
             plain_first = bool(nb >= 2 and rng.random() < 0.3)
             if plain_first:
                 # mixed designation: the first subspace is decoupled from the others in T, so its right vectors are
@@ -524,6 +529,8 @@ def _encode(p: Problem, rng, input_term: bool = False):
                 s0 = off[1]
                 T_re[:s0, :] = 0
                 T_im[:s0, :] = 0
+                T_re[:, :s0] = 0
+                T_im[:, :s0] = 0
                 p.notes["plain_first_subspace"] = True
             if p.exact:
                 M1 = gr_eye(p.N)
